@@ -273,6 +273,10 @@ def run(tier, seed, replay=None):
             return st, 0, ""
 
     nvg = 0
+    import shutil
+    if not shutil.which("valgrind"):
+        rep.assumptions.append("valgrind is not installed: the memcheck pass over the registry calls was skipped")
+        vcases = {}
     with ThreadPoolExecutor(max_workers=c.NCPU) as ex:
         for st, ncase, out in ex.map(vg_state, list(vcases)):
             nvg += ncase
